@@ -495,7 +495,7 @@ Lemma call_congr k v p n args args' x :
   ev k v (ECall p n args) = Ok x -> ev k v (ECall p n args') = Ok x.
 Proof.
   intros HF. cbn [eval].
-  destruct n; try (intros H; exact H).
+  destruct n; try (intros H; discriminate H).
   destruct (call_name (EName pos s)); [|intros H; exact H].
   destruct (func_info s0) as [[[nargs varargs] t]|]; [|intros H; exact H].
   rewrite (Forall2_len _ _ _ HF).
@@ -1392,6 +1392,7 @@ Qed.
 
 (* ------------------------------------------------------------------ witnesses over binary64
    (Base/Flt.prim_fops: Coq's primitive floats, evaluated by vm_compute; no axiom is used) *)
+From Coq Require Import Floats.
 From KV Require Import Base.Flt.
 
 Definition re_none (pat text : bytes) : res bool := OutOfModel.
@@ -1411,12 +1412,25 @@ Lemma float_reassoc_refuted_lemma :
   ~ reassoc_exact prim_fops re_none pf_fmt_v d15_expr "k" "1e16".
 Proof.
   split; [reflexivity|]. split.
-  - eexists. eexists. split; [vm_compute; reflexivity|]. split; [vm_compute; reflexivity|].
+  - exists (VFlt (fo := prim_fops) 1e16%float), (VFlt (fo := prim_fops) 10000000000000002%float).
+    split; [vm_compute; reflexivity|]. split; [vm_compute; reflexivity|].
     vm_compute. discriminate.
-  - intros [P _]. cbn [pass_exact] in P. destruct P as (_ & _ & P).
+  - intros [P _]. unfold d15_expr in P. cbn [pass_exact] in P. destruct P as (_ & _ & P).
     cbn [reorder_exact] in P. destruct P as (_ & _ & P).
-    vm_compute in P.
-    specialize (P _ _ _ eq_refl eq_refl eq_refl eq_refl). discriminate P.
+    match type of P with
+    | match ?s with Some _ => _ | None => _ end =>
+        let t := eval vm_compute in s in change s with t in P
+    end.
+    cbv iota beta in P. unfold site_exact in P.
+    specialize (P (VFlt (fo := prim_fops) 1e16%float) (VFlt (fo := prim_fops) 1%float)
+                  (VFlt (fo := prim_fops) 1%float)).
+    assert (H1 : eval prim_fops re_none "k" "1e16" (ECall 0 (EName 0 "float") [EField 6 ValueKW])
+                 = Ok (VFlt (fo := prim_fops) 1e16%float)) by (vm_compute; reflexivity).
+    assert (H2 : eval prim_fops re_none "k" "1e16" (EFloat 15 "1.0")
+                 = Ok (VFlt (fo := prim_fops) 1%float)) by (vm_compute; reflexivity).
+    assert (H3 : eval prim_fops re_none "k" "1e16" (EFloat 21 "1.0")
+                 = Ok (VFlt (fo := prim_fops) 1%float)) by (vm_compute; reflexivity).
+    specialize (P H1 H2 H3 eq_refl). vm_compute in P. discriminate P.
 Qed.
 
 (* D14: the literal re-wrapped by the kind of the LEFT operand (the code before the fix)
@@ -1428,7 +1442,8 @@ Lemma rewrap_by_left_kind_refuted_lemma :
     eval prim_fops re_none "" "" lit = Ok x' /\
     canon_of prim_fops x' <> canon_of prim_fops ret.
 Proof.
-  eexists. eexists. eexists. split; [vm_compute; reflexivity|].
+  exists (VFlt (fo := prim_fops) 1.5%float), (ENum 0 "1"), (VInt (fo := prim_fops) 1).
+  split; [vm_compute; reflexivity|].
   split; [vm_compute; reflexivity|]. split; [vm_compute; reflexivity|].
   vm_compute. discriminate.
 Qed.
